@@ -24,8 +24,27 @@ pub enum TOp {
         #[serde(default)]
         var: u8,
     },
+    /// the access layer's conditional store: takes effect only if the key is not resident
+    InsAbsent {
+        key: u64,
+        id: u32,
+        mv: u8,
+        #[serde(default)]
+        var: u8,
+    },
     Find { key: u64 },
     Entries,
+}
+
+impl TOp {
+    /// (key, id, mv, var, conditional) of either kind of store
+    fn store(&self) -> Option<(u64, u32, u8, u8, bool)> {
+        match self {
+            TOp::Ins { key, id, mv, var } => Some((*key, *id, *mv, *var, false)),
+            TOp::InsAbsent { key, id, mv, var } => Some((*key, *id, *mv, *var, true)),
+            _ => None,
+        }
+    }
 }
 
 #[derive(Clone, Debug, Serialize, Deserialize, PartialEq)]
@@ -136,6 +155,10 @@ fn do_op(table: &Table, thread: usize, op: &TOp) -> Rec {
             table.insert(*key, value_for(*key, *id, *mv, *var));
             Res::Unit
         }
+        TOp::InsAbsent { key, id, mv, var } => {
+            table.insert_if_absent(*key, value_for(*key, *id, *mv, *var));
+            Res::Unit
+        }
         TOp::Find { key } => Res::Found(table.find(*key)),
         TOp::Entries => Res::Count(table.entries()),
     };
@@ -177,7 +200,7 @@ fn keys_of(case: &TableCase) -> BTreeSet<u64> {
     let mut ks = BTreeSet::new();
     for op in case.prefill.iter().chain(case.threads.iter().flatten()) {
         match op {
-            TOp::Ins { key, .. } | TOp::Find { key } => {
+            TOp::Ins { key, .. } | TOp::InsAbsent { key, .. } | TOp::Find { key } => {
                 ks.insert(*key);
             }
             _ => {}
@@ -321,19 +344,20 @@ fn check(case: &TableCase, obs: &Observed, v: &mut Vec<Violation>, stats: &mut R
     // id -> (key, value) of every insert in the case
     let mut by_id: HashMap<i64, (u64, EntryView)> = HashMap::new();
     for op in case.prefill.iter().chain(case.threads.iter().flatten()) {
-        if let TOp::Ins { key, id, mv, var } = op {
-            by_id.insert(uid(*key, *id, *mv, *var), (*key, value_for(*key, *id, *mv, *var)));
+        if let Some((key, id, mv, var, _)) = op.store() {
+            by_id.insert(uid(key, id, mv, var), (key, value_for(key, id, mv, var)));
         }
     }
-    let inserts: Vec<&Rec> = obs.recs.iter().filter(|r| matches!(r.op, TOp::Ins { .. })).collect();
-    let ins_key = |r: &Rec| match r.op {
-        TOp::Ins { key, .. } => key,
-        _ => unreachable!(),
+    // stores of either kind; a conditional store that has returned leaves its key resident
+    // (stored now or found resident), but only an unconditional one is certain to have
+    // replaced the value
+    let inserts: Vec<&Rec> = obs.recs.iter().filter(|r| r.op.store().is_some()).collect();
+    let ins_key = |r: &Rec| r.op.store().unwrap().0;
+    let ins_id = |r: &Rec| {
+        let (key, id, mv, var, _) = r.op.store().unwrap();
+        uid(key, id, mv, var)
     };
-    let ins_id = |r: &Rec| match r.op {
-        TOp::Ins { key, id, mv, var } => uid(key, id, mv, var),
-        _ => unreachable!(),
-    };
+    let unconditional = |r: &Rec| !r.op.store().unwrap().4;
     let route = |k: u64| obs.routes.get(&k).copied();
 
     // distinct keys routed to `b` (other than `k`) with an insert invoked before `t`
@@ -375,7 +399,7 @@ fn check(case: &TableCase, obs: &Observed, v: &mut Vec<Violation>, stats: &mut R
                             v.push(Violation::new("C15", "read-from-future", "", format!("find({:#x}) returned id {} whose insert had not started", key, id)));
                         }
                         let superseded = inserts.iter().any(|i2| {
-                            ins_key(i2) == *key && ins_id(i2) != id && i2.inv > src.ret && i2.ret < r.inv
+                            unconditional(i2) && ins_key(i2) == *key && ins_id(i2) != id && i2.inv > src.ret && i2.ret < r.inv
                         });
                         if superseded {
                             v.push(Violation::new(
@@ -484,7 +508,7 @@ fn check(case: &TableCase, obs: &Observed, v: &mut Vec<Violation>, stats: &mut R
         match by_id.get(&id) {
             Some((k, val)) if *k == s.key && *val == s.entry => {
                 let src = inserts.iter().find(|i| ins_id(i) == id).unwrap();
-                let superseded = inserts.iter().any(|i2| ins_key(i2) == s.key && ins_id(i2) != id && i2.inv > src.ret);
+                let superseded = inserts.iter().any(|i2| unconditional(i2) && ins_key(i2) == s.key && ins_id(i2) != id && i2.inv > src.ret);
                 if superseded {
                     v.push(Violation::new("C15", "stale-read", "quiescent", format!("slot of key {:#x} holds id {} although a later insert completed", s.key, id)));
                 }
@@ -522,13 +546,19 @@ fn check(case: &TableCase, obs: &Observed, v: &mut Vec<Violation>, stats: &mut R
             let r = &obs.recs[*ri];
             stats.eval("sequential-step");
             match &r.op {
-                TOp::Ins { key, id, mv, var } => {
-                    let val = value_for(*key, *id, *mv, *var);
+                TOp::Ins { .. } | TOp::InsAbsent { .. } => {
+                    let (key, id, mv, var, conditional) = r.op.store().unwrap();
+                    let key = &key;
+                    let val = value_for(*key, id, mv, var);
                     let Some(b) = route(*key) else { continue };
                     let bucket = model.entry(b).or_default();
                     if let Some(e) = bucket.iter_mut().find(|e| e.0 == *key) {
-                        e.1 = val;
-                        stats.probe("same-key-overwrite");
+                        if conditional {
+                            stats.probe("conditional-store-found-resident");
+                        } else {
+                            e.1 = val;
+                            stats.probe("same-key-overwrite");
+                        }
                     } else if bucket.len() < slots {
                         bucket.push((*key, val));
                     } else {
@@ -572,7 +602,7 @@ fn check(case: &TableCase, obs: &Observed, v: &mut Vec<Violation>, stats: &mut R
         let mut per: BTreeMap<(usize, usize), Vec<&Rec>> = BTreeMap::new();
         for r in &obs.recs {
             let k = match r.op {
-                TOp::Ins { key, .. } | TOp::Find { key } => key,
+                TOp::Ins { key, .. } | TOp::InsAbsent { key, .. } | TOp::Find { key } => key,
                 TOp::Entries => continue,
             };
             if let Some(b) = route(k) {
@@ -622,7 +652,13 @@ fn linearizable(hist: &[&Rec], slots: usize) -> bool {
                         return true;
                     }
                 }
-                (TOp::Ins { key, id, mv, var }, _) => {
+                (TOp::InsAbsent { key, .. }, _) if state.iter().any(|e| e.0 == *key) => {
+                    // resident: the conditional store changes nothing
+                    if go(hist, slots, done | (1 << i), state, memo) {
+                        return true;
+                    }
+                }
+                (TOp::Ins { key, id, mv, var }, _) | (TOp::InsAbsent { key, id, mv, var }, _) => {
                     let val = uid(*key, *id, *mv, *var);
                     if let Some(pos) = state.iter().position(|e| e.0 == *key) {
                         let old = state[pos].1;
@@ -695,6 +731,8 @@ pub fn generate(rng: &mut Rng64, thorough: bool) -> TableCase {
             next_id += 1;
         }
     }
+    // one case in three mixes in the conditional store (insert_if_absent)
+    let conditional_stores = rng.chance(330);
     let mut threads = Vec::new();
     for _ in 0..nthreads {
         let nops = if nthreads == 1 {
@@ -719,7 +757,11 @@ pub fn generate(rng: &mut Rng64, thorough: bool) -> TableCase {
                     }
                 }
             } else if r < 55 {
-                ops.push(TOp::Ins { key, id: next_id, mv: rng.below(256) as u8, var: 0 });
+                if conditional_stores && rng.chance(350) {
+                    ops.push(TOp::InsAbsent { key, id: next_id, mv: rng.below(256) as u8, var: 0 });
+                } else {
+                    ops.push(TOp::Ins { key, id: next_id, mv: rng.below(256) as u8, var: 0 });
+                }
                 next_id += 1;
             } else if r < 95 {
                 ops.push(TOp::Find { key });
